@@ -12,7 +12,7 @@ use std::time::Duration;
 
 const PROP: &str = "C20";
 pub const PORT: u16 = 6503;
-pub const N_STATES: usize = 8;
+pub const N_STATES: usize = 11;
 pub const N_VARIANTS: usize = 6;
 
 pub const STATE_NAMES: [&str; N_STATES] = [
@@ -24,6 +24,9 @@ pub const STATE_NAMES: [&str; N_STATES] = [
     "S5_disconnected",
     "S6_tcp_dropped",
     "S7_test_terminated",
+    "S8_second_session_after_disconnect",
+    "S9_connected_but_silent",
+    "S10_dap_request_in_flight",
 ];
 pub const VARIANT_NAMES: [&str; N_VARIANTS] = [
     "V1_shutdown_exit_close",
@@ -135,6 +138,11 @@ fn reach_state(state: usize, dap: &mut Option<DapClient>, notes: &mut Vec<String
             return false;
         }
     };
+    if state == 9 {
+        // connected, but the client never says anything
+        *dap = Some(c);
+        return true;
+    }
     let ok = (|| -> Result<(), super::clients::ClientErr> {
         c.request("initialize", json!({"clientID": "sim", "linesStartAt1": true, "columnsStartAt1": true}))?;
         if state == 1 {
@@ -172,6 +180,21 @@ fn reach_state(state: usize, dap: &mut Option<DapClient>, notes: &mut Vec<String
                 if c.wait_event("terminated", Duration::from_secs(10)).is_none() {
                     return Err(super::clients::ClientErr::Timeout);
                 }
+            }
+            8 => {
+                // first session ends with disconnect, a second debugger attaches and stays idle
+                clock::sleep(Duration::from_millis(3));
+                c.request("disconnect", json!({}))?;
+                let mut c2 = DapClient::connect(PORT, 400).ok_or(super::clients::ClientErr::Closed)?;
+                c2.request("initialize", json!({"clientID": "sim2", "linesStartAt1": true, "columnsStartAt1": true}))?;
+                c = c2;
+            }
+            10 => {
+                // requests are in flight (no answer awaited) when the shutdown begins
+                clock::sleep(Duration::from_millis(3));
+                c.send_only("variables", json!({"variablesReference": 1}))?;
+                c.send_only("pause", json!({"threadId": 1}))?;
+                c.send_only("stackTrace", json!({"threadId": 1}))?;
             }
             _ => {}
         }
@@ -497,8 +520,8 @@ pub fn main(cli: &Cli) -> i32 {
         return replay(cli, p);
     }
     let per_cell = match cli.tier {
-        Tier::Quick => 40u64,
-        Tier::Thorough => 2_000u64,
+        Tier::Quick => 30u64,
+        Tier::Thorough => 1_500u64,
     };
     let n = cli.runs.unwrap_or(per_cell * (N_STATES * N_VARIANTS) as u64);
     let seed = cli.seed;
